@@ -57,6 +57,28 @@ def scen_pipeline(job):
     v = xcheck(data)
     return (cid, 'ACCEPTED_INCONSISTENT' if v else 'ok', rc, [list(x) for x in v[:8]], out[-1200:])
 
+def toolop_pipeline(job):
+    """tool-written family: a state produced by the tree's own writers (one debugfs / tune2fs / resize2fs / e2fsck / mke2fs operation on a corpus image, C14's menu);
+    if e2fsck -fn accepts it, the independent checker must too -- this is where a writer and a verifier that share a mistake show"""
+    name, label, cmds = job
+    p = fsweep.worker_path('top')
+    if name:
+        with open(p, 'wb') as f: f.write(fsweep.base_data(name))
+    elif os.path.exists(p): os.unlink(p)
+    for argv in cmds:
+        argv = [a.replace('{img}', p).replace('{dir}', os.path.dirname(p)) for a in argv]
+        rc, out = run(argv, timeout=60)
+        if 'tune2fs' in argv[0] and ('run e2fsck -f' in out or 'Please run e2fsck' in out):
+            run([E2FSCK, '-fyD', p], timeout=60)
+    try: data = open(p, 'rb').read()
+    except OSError: return ('%s/%s' % (name, label), 'rejected', 0, [], '')
+    rc, out = run([E2FSCK, '-fn', p], timeout=60)
+    cid = 'toolop/%s/%s' % (name, label)
+    if rc != 0: return (cid, 'rejected', rc, [], '')
+    try: v = xcheck(data)
+    except Exception as e: v = [('S', 'unreadable', repr(e))]
+    return (cid, 'ACCEPTED_INCONSISTENT' if v else 'ok', rc, [list(x) for x in v[:8]], out[-800:])
+
 def classify(codes, viol, out):
     """root-cause classes that are genuine, recorded defects of the tree (see known_findings.json / DESIGN.md)"""
     vc = set(x[1] for x in viol)
@@ -75,7 +97,7 @@ def main(tier, only=None):
     ck = Check('C02', tier, 'fault_enumeration')
     E2FSCK = tool('e2fsck')
     fsweep.init_scratch()
-    bases = [b for b in only if b not in ('geom', 'scen')] if only else (fsweep.QUICK_BASES if tier == 'quick' else fsweep.SWEEP_BASES)
+    bases = [b for b in only if b not in ('geom', 'scen', 'toolop')] if only else (fsweep.QUICK_BASES if tier == 'quick' else fsweep.SWEEP_BASES)
     ck.set_deadline(240 if tier == 'quick' else 2700)
     total = accepted = 0
     per = {}; viol_classes = {}
@@ -107,6 +129,18 @@ def main(tier, only=None):
             if st == 'ACCEPTED_INCONSISTENT':
                 ck.violation(cid, {'scenario': cid, 'e2fsck_fn_exit': rc, 'xck_violations': v, 'e2fsck_output': out, 'root_cause_class': 'detached-directory-cycle' if 'cycle' in cid or 'self-loop' in cid else None})
         per['scenarios'] = {'prepared': len(sj), 'rejected_by_e2fsck_fn': nincons}
+    if not only or 'toolop' in only:
+        from checks import c14
+        TT = {k: tool(k) for k in ('mke2fs', 'debugfs', 'tune2fs', 'resize2fs', 'e2fsck')}
+        tj = c14.tool_op_jobs(TT, tier == 'quick')
+        nacc = 0
+        for cid, st, rc, v, out in pmap(toolop_pipeline, tj, chunksize=1):
+            total += 1
+            if st == 'rejected': continue
+            nacc += 1; accepted += 1
+            if st == 'ACCEPTED_INCONSISTENT':
+                ck.violation(cid, {'toolop': cid, 'e2fsck_fn_exit': rc, 'xck_violations': v, 'e2fsck_output': out, 'root_cause_class': classify([], v, out)})
+        per['tool_written_family'] = {'operations': len(tj), 'accepted_by_e2fsck_fn': nacc}
     for name in bases:
         r0 = pipeline(('%s/k0' % name, name, []))
         if r0[1] != 'ok':
@@ -149,7 +183,7 @@ def main(tier, only=None):
         if ck.expired():
             ck.add(exhaustive=False); break
     ck.add(evaluations=total, distinct_nontrivial=accepted, states=total, transitions=total, traces_validated_against_impl=total,
-           rule='scenario family: coordinated multi-object inconsistencies prepared with debugfs (detached directory cycles of length 1-3, unreferenced file, detached subtree) on three corpus images; geometry family: runtime-built csum filesystems with inode tables of 1..18 blocks per group and inodes in use in every group x every in-use inode x {checksum-only damage, link count +1 resealed, i_blocks +2 resealed}; then the same mutant space as C01 plus, for every block pointer of an inode or mapping block, a "+settle" variant in which the independent reader recomputes block bitmaps, free counts, i_blocks and checksums around the new pointer (so that only the range/ownership invariant is broken); each mutant: e2fsck -fn, and if it exits 0 the independent checker xck.check (groups R,A,L,S,K) must find nothing; '
+           rule='tool-written family: every operation of C14\'s menu (debugfs / tune2fs / resize2fs / e2fsck / mke2fs on corpus images, inode layout sweeps) whose result e2fsck -fn accepts must be clean for the independent checker; scenario family: coordinated multi-object inconsistencies prepared with debugfs (detached directory cycles of length 1-3, unreferenced file, detached subtree) on three corpus images; geometry family: runtime-built csum filesystems with inode tables of 1..18 blocks per group and inodes in use in every group x every in-use inode x {checksum-only damage, link count +1 resealed, i_blocks +2 resealed}; then the same mutant space as C01 plus, for every block pointer of an inode or mapping block, a "+settle" variant in which the independent reader recomputes block bitmaps, free counts, i_blocks and checksums around the new pointer (so that only the range/ownership invariant is broken); each mutant: e2fsck -fn, and if it exits 0 the independent checker xck.check (groups R,A,L,S,K) must find nothing; '
                 'distinct_nontrivial = mutants that e2fsck accepted (only those exercise the oracle)', samples=sample[:6])
     ck.cov['bases'] = per
     ck.assumptions += ['xck (tools/xck, written from the format description, cross-validated against e2fsck on the repo\'s f_* images by tools/xck_calibrate.py) is the trusted oracle',
